@@ -48,13 +48,12 @@ var fmtDerived = map[string]string{
 	"IndexInfo.Unique":  "set together with Type from the production's own keywords (UNIQUE … / PRIMARY KEY), which Type carries verbatim",
 }
 
-// fmtBareNames: node-typed fields deliberately printed without identifier quoting (confirmed by reading; the grammar
-// accepts the bare word in exactly these positions).
+// fmtBareNames: node-typed fields printed without identifier quoting that can only ever hold a word the grammar reads
+// bare (confirmed by reading). Three former entries — FuncExpr.Name, SetExpr.Name, VindexParam.Key — were wrong: the
+// grammar fills them from sql_id / reserved_sql_id, which accept any back-quoted identifier, so `select`(a) prints as
+// select(a) and does not parse (audit H5-8). They are reported by the rule and listed as open known findings.
 var fmtBareNames = map[string]string{
-	"FuncExpr.Name via String()":        "function names are not back-quoted even if reserved (vitess comment at the site); the grammar's function_call productions take reserved words bare",
-	"CurTimeFuncExpr.Name via String()": "CURRENT_TIMESTAMP-family keywords are the name itself",
-	"SetExpr.Name via String()":         "SET variable names are not back-quoted (vitess comment at the site)",
-	"VindexParam.Key via String()":      "vindex parameter keys are reserved_sql_id words printed bare (vitess DDL)",
+	"CurTimeFuncExpr.Name via String()": "the grammar builds the name from the CURRENT_TIMESTAMP-family keyword tokens only, which are read bare",
 }
 
 // fmtPartial: node-typed fields of which deliberately only a part is printed (confirmed by reading).
